@@ -588,6 +588,89 @@ fn run_inner(sc: &J) -> Result<Option<String>, String> {
             let clen = buf.len();
             match codec.decompress(&mut buf) { Ok(()) if buf == payload => Ok(None), Ok(()) => Ok(Some(format!("decompress(compress(x)) != x for a run of {} bytes", payload.len()))), Err(e) => Ok(Some(format!("decompress rejects compress(x) for a run of {} bytes (compressed to {clen}): {e}", payload.len()))) }
         }
+        // C01/C02/C13: a built-in corpus of (schema, value) pairs covering every primitive at its boundaries, unions with null at
+        // every position, zero-width items, nested composites and logical types: encode, decode, compare; exact consumption when
+        // two datums are concatenated; validating and non-validating writers agree; returned count = bytes written
+        "datum_corpus" => {
+            let mut corpus: Vec<(&str, Value)> = Vec::new();
+            for n in [0i64, -1, 1, 63, 64, -64, -65, 8191, 8192, -8193, i32::MAX as i64, i32::MIN as i64, i32::MAX as i64 + 1, 1 << 34, -(1 << 41), 1 << 48, -(1 << 55), 1 << 62, i64::MAX, i64::MIN] { corpus.push(("\"long\"", Value::Long(n))); }
+            for n in [0i32, -1, 1, 64, -65, i32::MAX, i32::MIN] { corpus.push(("\"int\"", Value::Int(n))); }
+            for x in [0.0f64, -0.0, 1.5, f64::INFINITY, f64::NEG_INFINITY, f64::MIN_POSITIVE, f64::from_bits(0x7ff8_0000_0000_0001), f64::from_bits(0xfff0_0000_0000_0001)] { corpus.push(("\"double\"", Value::Double(x))); }
+            for x in [0.0f32, -0.0, 2.5, f32::INFINITY, f32::from_bits(0x7fc0_0001), f32::from_bits(0xff80_0001)] { corpus.push(("\"float\"", Value::Float(x))); }
+            corpus.push(("\"boolean\"", Value::Boolean(true))); corpus.push(("\"boolean\"", Value::Boolean(false))); corpus.push(("\"null\"", Value::Null));
+            for s in ["", "a", "h\u{e9}llo \u{1F600}", &"x".repeat(64), &"y".repeat(8192)] { corpus.push(("\"string\"", Value::String(s.to_string()))); }
+            for n in [0usize, 1, 63, 64, 8191, 8192] { corpus.push(("\"bytes\"", Value::Bytes(vec![0xA5; n]))); }
+            corpus.push(("[\"null\",\"long\"]", Value::Union(0, Box::new(Value::Null)))); corpus.push(("[\"null\",\"long\"]", Value::Union(1, Box::new(Value::Long(-3)))));
+            corpus.push(("[\"long\",\"null\"]", Value::Union(1, Box::new(Value::Null)))); corpus.push(("[\"string\",\"null\",\"long\"]", Value::Union(2, Box::new(Value::Long(9)))));
+            corpus.push(("{\"type\":\"array\",\"items\":\"null\"}", Value::Array(vec![Value::Null; 5]))); corpus.push(("{\"type\":\"array\",\"items\":\"long\"}", Value::Array(vec![])));
+            corpus.push(("{\"type\":\"array\",\"items\":[\"null\",\"string\"]}", Value::Array(vec![Value::Union(1, Box::new(Value::String("q".into()))), Value::Union(0, Box::new(Value::Null))])));
+            corpus.push(("{\"type\":\"map\",\"values\":\"long\"}", Value::Map([("a".to_string(), Value::Long(1)), ("".to_string(), Value::Long(-1))].into_iter().collect())));
+            corpus.push(("{\"type\":\"enum\",\"name\":\"e\",\"symbols\":[\"A\",\"B\",\"C\"]}", Value::Enum(2, "C".into())));
+            corpus.push(("{\"type\":\"fixed\",\"name\":\"f\",\"size\":3}", Value::Fixed(3, vec![1, 2, 3]))); corpus.push(("{\"type\":\"fixed\",\"name\":\"z\",\"size\":0}", Value::Fixed(0, vec![])));
+            corpus.push(("{\"type\":\"record\",\"name\":\"e\",\"fields\":[]}", Value::Record(vec![])));
+            corpus.push(("{\"type\":\"record\",\"name\":\"n.r\",\"fields\":[{\"name\":\"a\",\"type\":\"long\"},{\"name\":\"b\",\"type\":{\"type\":\"record\",\"name\":\"i\",\"fields\":[{\"name\":\"c\",\"type\":[\"null\",\"n.r\"]}]}}]}",
+                Value::Record(vec![("a".into(), Value::Long(1)), ("b".into(), Value::Record(vec![("c".into(), Value::Union(1, Box::new(Value::Record(vec![("a".into(), Value::Long(2)), ("b".into(), Value::Record(vec![("c".into(), Value::Union(0, Box::new(Value::Null)))]))]))))]))])));
+            corpus.push(("{\"type\":\"int\",\"logicalType\":\"date\"}", Value::Date(-5))); corpus.push(("{\"type\":\"long\",\"logicalType\":\"timestamp-micros\"}", Value::TimestampMicros(i64::MIN)));
+            corpus.push(("{\"type\":\"fixed\",\"name\":\"d\",\"size\":12,\"logicalType\":\"duration\"}", Value::Duration(apache_avro::Duration::new(apache_avro::Months::new(u32::MAX), apache_avro::Days::new(1), apache_avro::Millis::new(0x01020304)))));
+            corpus.push(("{\"type\":\"string\",\"logicalType\":\"uuid\"}", Value::Uuid(apache_avro::Uuid::from_u128(0x0123456789abcdef0123456789abcdef))));
+            for (st, v) in corpus {
+                let schema = Schema::parse_str(st).map_err(|e| format!("{st}: {e}"))?;
+                let w = apache_avro::writer::datum::GenericDatumWriter::builder(&schema).build().map_err(|e| e.to_string())?;
+                let wn = apache_avro::writer::datum::GenericDatumWriter::builder(&schema).validate(false).build().map_err(|e| e.to_string())?;
+                let mut a = Vec::new(); let na = w.write_value_ref(&mut a, &v).map_err(|e| format!("{st} {v:?}: {e}"))?;
+                let mut b = Vec::new(); wn.write_value_ref(&mut b, &v).map_err(|e| format!("{st} {v:?}: {e}"))?;
+                if a != b { return Ok(Some(format!("{st}: validating and non-validating writers produce different bytes for {v:?}"))); }
+                if na != a.len() { return Ok(Some(format!("{st}: write_value_ref returned {na} for {} bytes ({v:?})", a.len()))); }
+                let rdr = apache_avro::reader::datum::GenericDatumReader::builder(&schema).build().map_err(|e| e.to_string())?;
+                let two: Vec<u8> = [a.clone(), a.clone(), vec![0xEE]].concat();
+                let mut rd = &two[..];
+                for i in 0..2 {
+                    match rdr.read_value(&mut rd) {
+                        Ok(back) => { let same = match (&back, &v) { (Value::Double(x), Value::Double(y)) => x.to_bits() == y.to_bits(), (Value::Float(x), Value::Float(y)) => x.to_bits() == y.to_bits(), _ => back == v };
+                            if !same { return Ok(Some(format!("{st}: {v:?} round-trips to {back:?}"))); }
+                            if two.len() - rd.len() != (i + 1) * a.len() { return Ok(Some(format!("{st}: after datum {i} the reader consumed {} bytes, datum length is {}", two.len() - rd.len(), a.len()))); } }
+                        Err(e) => return Ok(Some(format!("{st}: encoded {v:?} ({:02x?}) does not decode: {e}", &a[..a.len().min(16)]))),
+                    }
+                }
+            }
+            Ok(None)
+        }
+        // C03/C04/C14/C15: schemas {null, long, string} x codecs {null, deflate} x block sizes {0, 1, default}: write, read back;
+        // every cut offset (sampled for long files) gives a true prefix then an error unless on a block boundary
+        "container_matrix" => {
+            for (st, datum) in [("\"null\"", Value::Null), ("\"long\"", Value::Long(-77)), ("\"string\"", Value::String("abcdefgh".into()))] {
+                let schema = Schema::parse_str(st).map_err(|e| e.to_string())?;
+                for codec in [apache_avro::Codec::Null, apache_avro::Codec::Deflate(Default::default())] {
+                    for bs in [0usize, 1, 16000] {
+                        let n = 7usize;
+                        let mut w = apache_avro::Writer::builder().schema(&schema).writer(Vec::new()).codec(codec).block_size(bs).marker([9u8; 16]).build().map_err(|e| e.to_string())?;
+                        let mut ends = Vec::new(); // (file length, values complete) after each flush
+                        w.flush().map_err(|e| e.to_string())?; ends.push((w.get_ref().len(), 0usize));
+                        for i in 0..n { w.append_value_ref(&datum).map_err(|e| e.to_string())?; if w.get_ref().len() != ends.last().unwrap().0 { ends.push((w.get_ref().len(), i + 1)); } if i == 3 { w.flush().map_err(|e| e.to_string())?; if w.get_ref().len() != ends.last().unwrap().0 { ends.push((w.get_ref().len(), i + 1)); } } }
+                        let file = w.into_inner().map_err(|e| e.to_string())?;
+                        if file.len() != ends.last().unwrap().0 { ends.push((file.len(), n)); }
+                        let what = format!("schema {st} codec {codec:?} block_size {bs}");
+                        let rd = apache_avro::Reader::new(&file[..]).map_err(|e| format!("{what}: {e}"))?;
+                        match rd.collect::<Result<Vec<Value>, _>>() { Ok(vs) if vs.len() == n && vs.iter().all(|x| *x == datum) => {}, other => return Ok(Some(format!("{what}: wrote {n} values, read back {:?}", other.map(|v| v.len())))) }
+                        for c in 0..file.len() {
+                            let hdr = ends[0].0;
+                            match apache_avro::Reader::new(&file[..c]) {
+                                Err(_) => if c >= hdr { return Ok(Some(format!("{what}: cut at {c} (header is {hdr} bytes): opening fails"))); },
+                                Ok(rd) => {
+                                    if c < hdr { return Ok(Some(format!("{what}: cut at {c} inside the {hdr}-byte header: opening succeeds"))); }
+                                    let (mut got, mut err) = (0usize, false);
+                                    for it in rd { match it { Ok(_) => got += 1, Err(_) => err = true } }
+                                    let mut want = 0; let mut boundary = false;
+                                    for (e, k) in &ends { if *e <= c { want = *k; } if *e == c { boundary = true; } }
+                                    if got != want || err == boundary { return Ok(Some(format!("{what}: cut at {c} of {}: {got} values (expected {want}), error reported = {err} (block boundary = {boundary})", file.len()))); }
+                                }
+                            }
+                        }
+                    }
+                }
+            }
+            Ok(None)
+        }
         k => Err(format!("unknown scenario kind {k:?}")),
     }
 }
